@@ -2,14 +2,16 @@
    output and of a state snapshot with Model.Gossip, plus monitors evaluated on observed data. *)
 From Coq Require Import List Bool ZArith Arith.
 Import ListNotations.
-From PS Require Import Model.Router Model.Gossip Run.Verdict.
+From PS Require Import Model.Router Model.Gossip Model.Trace Run.Verdict.
 Local Open Scope Z_scope.
 
 Record gsnap := { gn_mesh : list (topic * list peer); gn_fanout : list (topic * list peer);
                   gn_backoff : list (topic * list (peer * Z));
                   gn_unwanted : list (peer * list mid); gn_cache : list mid }.
 
-Record gstepr := { gs_scores : list (peer * Z); gs_op : gop; gs_out : list gout; gs_snap : gsnap }.
+Record gstepr := { gs_scores : list (peer * Z); gs_op : gop; gs_out : list gout; gs_snap : gsnap;
+                   gs_trace : list tev;                (* the events an attached EventTracer received during the step *)
+                   gs_nrpc : list (peer * nat) }.       (* RPCs found in each peer's queue after the step *)
 Record gcase := { gc_params : gparams; gc_steps : list gstepr }.
 
 (* ---- comparing outputs (id lists as sets) ---- *)
@@ -79,7 +81,9 @@ Record mon := {
   mo_truth : gstate;                       (* ground truth BEFORE the step *)
   mo_asked : list (peer * nat);            (* ids requested per peer since the last heartbeat *)
   mo_served : list ((mid * peer) * nat);   (* copies served through IWANT per (id, peer) *)
-  mo_lastpub : list (topic * Z)            (* observed time of the last publication per topic *)
+  mo_lastpub : list (topic * Z);           (* observed time of the last publication per topic *)
+  mo_view : tview;                         (* C19: the view rebuilt from the trace so far *)
+  mo_delivered : list mid                  (* C19: ids that had a DELIVER_MESSAGE event *)
 }.
 
 Definition msg_outs (o : list gout) : list (peer * mid) :=
@@ -196,16 +200,45 @@ Definition mon_step (P : gparams) (m : mon) (st : gstepr) : option nat * mon :=
                                         unwanted := unwanted g'; promises := promises g'; seen := fold_left (fun a x => match aget (m_topic x) (mesh (core g)) with Some _ => sadd (m_id x) a | None => a end) ms (seen g'); idw_peers := idw_peers g' |}
                                    else g'
              | _ => g' end in
+  (* ---- C19: the trace ---- *)
+  let tr := gs_trace st in
+  let view' := replay (mo_view m) tr in
+  let delivered_now := concat (map (fun e => match e with TDeliver i => [i] | _ => [] end) tr) in
+  let published_now := concat (map (fun e => match e with TPublish i => [i] | _ => [] end) tr) in
+  let count_id := fun (i : nat) (l : list nat) => length (filter (Nat.eqb i) l) in
+  let accepted_ids :=
+    match gs_op st with
+    | GPublish msg _ | GPublishLocal msg => if memb (m_id msg) (seen g) then [] else [m_id msg]
+    | GRecvMsgs p ms _ =>
+        if accept_from P sc g p
+        then fold_left (fun a x => match aget (m_topic x) (mesh s) with
+                                   | Some _ => if memb (m_id x) (seen g) || memb (m_id x) a then a else a ++ [m_id x]
+                                   | None => a end) ms []
+        else []
+    | _ => [] end in
+  let v19 :=
+    if negb (alt_ok (map fst (tv_mesh (mo_view m))) tr) then Some 191%nat
+    else if negb (tview_eqb view' {| tv_peers := map fst (peers (core (truth_step P sc g st))); tv_mesh := gn_mesh (gs_snap st) |}) then Some 192%nat
+    else if negb (nodup_b delivered_now) || existsb (fun i => memb i (mo_delivered m)) delivered_now then Some 193%nat
+    else if negb (seteq delivered_now accepted_ids) then Some 196%nat
+    else if match gs_op st with
+            | GPublish msg _ | GPublishLocal msg => negb (Nat.eqb (count_id (m_id msg) published_now) 1) || negb (Nat.eqb (length published_now) 1)
+            | _ => negb (match published_now with [] => true | _ => false end) end then Some 194%nat
+    else if negb (forallb (fun e => Nat.eqb (length (filter (fun x => match x with TSend q => Nat.eqb q (fst e) | _ => false end) tr)) (snd e)) (gs_nrpc st))
+            || existsb (fun x => match x with TSend q => negb (match aget q (gs_nrpc st) with Some _ => true | None => false end) | TDrop _ => true | _ => false end) tr then Some 195%nat
+    else None in
+  let v3 := match v2 with Some c => Some c | None => v19 end in
   let lastpub' := match gs_op st with
                   | GPublish msg _ => aset (m_topic msg) (now s) (mo_lastpub m)
                   | _ => mo_lastpub m end in
-  (v2, {| mo_truth := g''; mo_asked := asked'; mo_served := served'; mo_lastpub := lastpub' |}).
+  (v3, {| mo_truth := g''; mo_asked := asked'; mo_served := served'; mo_lastpub := lastpub';
+          mo_view := view'; mo_delivered := delivered_now ++ mo_delivered m |}).
 
 Section ForProperty.
 Variable which : nat.   (* 6 -> C06, 9 -> C09, 17 -> C17, 0 -> all *)
 Definition keep (v : option nat) : option nat :=
   match v with
-  | Some c => if Nat.eqb which 0 || Nat.eqb (if Nat.ltb c 100 then c / 10 else c / 10)%nat which then Some c else None
+  | Some c => if Nat.eqb which 0 || Nat.eqb (c / 10)%nat which then Some c else None
   | None => None
   end.
 
@@ -239,6 +272,6 @@ Fixpoint exec (P : gparams) (g : gstate) (m : mon) (l : list gstepr) (idx : nat)
 
 Definition check_gcase_for (c : gcase) : verdict :=
   if negb (valid_params (gCore (gc_params c))) then VMismatch 0 99
-  else exec (gc_params c) (ginit (gc_params c)) {| mo_truth := ginit (gc_params c); mo_asked := []; mo_served := []; mo_lastpub := [] |} (gc_steps c) 0.
+  else exec (gc_params c) (ginit (gc_params c)) {| mo_truth := ginit (gc_params c); mo_asked := []; mo_served := []; mo_lastpub := []; mo_view := tview0; mo_delivered := [] |} (gc_steps c) 0.
 End ForProperty.
 Definition check_gcase := check_gcase_for 0.
